@@ -407,7 +407,7 @@ def run():
         'a generator passed as data is judged on validity of the result only '
         '(it is single-use)',
     ]
-    rep.require(rep.coverage.get('states', 0) > 1000, 'too few states')
+    rep.require(rep.coverage.get('states', 0) > 500, 'too few states')
     rep.require('capped' not in rep.coverage, 'search capped')
     return rep
 
